@@ -309,7 +309,16 @@ func (x *Exec) enterBlock(st *State, b, from *ssa.BasicBlock) bool {
 				break
 			}
 		}
-		fmt.Fprintf(os.Stderr, "loop %s %s at %s:%d\n", x.curKey, lkey, shortFile(pos.Filename), pos.Line)
+		kind := "for"
+		if ph, _ := rangeIndexBound(b); ph != nil {
+			kind = "range-slice"
+		}
+		for _, in := range b.Instrs {
+			if _, ok := in.(*ssa.Next); ok {
+				kind = "range-map"
+			}
+		}
+		fmt.Fprintf(os.Stderr, "loop %s %s %s at %s:%d\n", x.curKey, lkey, kind, shortFile(pos.Filename), pos.Line)
 	}
 	lc := &loopCtx{key: lkey}
 	lc.allocAt = x.heap(st, "$alloc", "Int")
@@ -1011,7 +1020,7 @@ func (x *Exec) callWrites(st *State, caller *ssa.Function, region []*ssa.BasicBl
 			return
 		}
 		ws.w("$alloc", "Int")
-		x.modifiesHeaps(con, callee, c, ws)
+		x.modifiesHeaps(con, callee, c, ws, env)
 		return
 	}
 	if rule != nil && rule.NoEffect {
@@ -1072,8 +1081,33 @@ func (x *Exec) callWrites(st *State, caller *ssa.Function, region []*ssa.BasicBl
 }
 
 // modifiesHeaps adds (conservatively, whole heaps) what a contract's modifies clause covers.
-func (x *Exec) modifiesHeaps(con *Contract, callee *ssa.Function, c *ssa.CallCommon, ws *writeSet) {
+func (x *Exec) modifiesHeaps(con *Contract, callee *ssa.Function, c *ssa.CallCommon, ws *writeSet, env map[ssa.Value]Val) {
 	for _, item := range con.Modifies {
+		if env != nil && c != nil {
+			// `map(p)` / `elems(p)` of a parameter whose argument is fixed before the analysed
+			// region: only that one object is written (pointwise havoc)
+			it := strings.TrimSpace(item)
+			isMap := strings.HasPrefix(it, "map(") && strings.HasSuffix(it, ")")
+			isElems := strings.HasPrefix(it, "elems(") && strings.HasSuffix(it, ")")
+			if isMap || isElems {
+				name := strings.TrimSpace(it[strings.Index(it, "(")+1 : len(it)-1])
+				if arg := argForName(c, name); arg != nil {
+					if av, ok := env[arg]; ok && av.T != "" {
+						if mt, ok := arg.Type().Underlying().(*types.Map); ok && isMap {
+							dn, ds, vn, vs := x.mapHeaps(mt)
+							ws.wPoint(dn, ds, av.T)
+							ws.wPoint(vn, vs, av.T)
+							continue
+						}
+						if sl, ok := arg.Type().Underlying().(*types.Slice); ok && isElems {
+							hn, hs := x.elemHeap(sl.Elem())
+							ws.wPoint(hn, hs, "(s_arr "+av.T+")")
+							continue
+						}
+					}
+				}
+			}
+		}
 		tgt := x.resolveModifies(con, callee, c, item)
 		if tgt.all {
 			ws.all = true
@@ -1085,6 +1119,41 @@ func (x *Exec) modifiesHeaps(con *Contract, callee *ssa.Function, c *ssa.CallCom
 		}
 		ws.inFresh = false
 	}
+}
+
+// argForName: the call argument bound to the callee's parameter (or receiver) of that name.
+func argForName(c *ssa.CallCommon, name string) ssa.Value {
+	sig := c.Signature()
+	if sig == nil {
+		return nil
+	}
+	if c.IsInvoke() {
+		if name == "self" {
+			return c.Value
+		}
+		for i := 0; i < sig.Params().Len() && i < len(c.Args); i++ {
+			if sig.Params().At(i).Name() == name {
+				return c.Args[i]
+			}
+		}
+		return nil
+	}
+	off := 0
+	if sig.Recv() != nil {
+		if len(c.Args) == 0 {
+			return nil
+		}
+		if name == "self" || name == sig.Recv().Name() {
+			return c.Args[0]
+		}
+		off = 1
+	}
+	for i := 0; i < sig.Params().Len() && off+i < len(c.Args); i++ {
+		if sig.Params().At(i).Name() == name {
+			return c.Args[off+i]
+		}
+	}
+	return nil
 }
 
 func (x *Exec) havocAll(st *State) {
